@@ -142,6 +142,41 @@ def explore_c11(rng, tier, res, deep=False):
                 continue
             lines.append(f"ireg\t{wire.enc_str(p)}\t{wire.enc_str(s)}\t{cats_of(s)}")
             expect.append((p, s, m, sr))
+    # the pattern written as a string LITERAL in the query text (what a compile-time treatment of "simple" patterns would
+    # see), subjects including the pattern's own text: plain words, patterns with a stray closing bracket or brace (not
+    # valid I-Regexps: always false), metacharacters escaped and not
+    def lit_of(t):
+        return "'" + t.replace("\\", "\\\\").replace("'", "\\'") + "'"
+
+    lit_pats = ["abc", "a]", "v1}", "}", "]", "a]b", "x}y", "a-b", "a,b", "a b", "ab", "a", "", "é", "a\\]", "a\\}", "a.c", "a\\.c", "[a]", "a{2}", "a|b", "(a)", "a*", "a+", "a?",
+                "-", ",", "a:b", "a=b", "a/b", "a\"b", "a'b", "a&b", "a~b", "a<b>", "a#b", "a@b", "a!b", "a%b", "a_b", "a;b", "😀", "a\n"]
+    lit_pats += [gen_re(rng) for _ in range(60 if tier != "thorough" else 1500)]
+    for pt in lit_pats:
+        if "$" in pt or "^" in pt.replace("[^", "["):
+            continue
+        if any(ord(ch) < 0x20 for ch in pt):
+            continue
+        try:
+            qm = env.compile(f"$[?match(@.s, {lit_of(pt)})]")
+            qs_ = env.compile(f"$[?search(@.s, {lit_of(pt)})]")
+            qn = env.compile(f"$[?!match(@.s, {lit_of(pt)})]")
+        except jp.JSONPathError:
+            continue
+        for sb in [pt, pt + "x", "x" + pt, pt[:-1] if pt else "a"] + [gen_subject(rng, pt) for _ in range(2)]:
+            doc = [{"s": sb}]
+            res.evaluations += 1
+            try:
+                m = bool(qm.find(doc))
+                sr = bool(qs_.find(doc))
+                if bool(qn.find(doc)) == m:
+                    res.violations.append({"property": "C11", "query": f"$[?!match(@.s, {lit_of(pt)})]", "document": doc, "observed": "same as match()", "expected": "the negation",
+                                           "what": "!match() is not the negation of match()"})
+            except Exception as exc:  # noqa: BLE001
+                res.violations.append({"property": "C11", "query": f"$[?match(@.s, {lit_of(pt)})]", "document": doc, "observed": "PY:" + type(exc).__name__ + ": " + str(exc)[:100],
+                                       "expected": "true or false", "what": "match()/search() raised"})
+                continue
+            lines.append(f"ireg\t{wire.enc_str(pt)}\t{wire.enc_str(sb)}\t{cats_of(sb)}")
+            expect.append((pt, sb, m, sr))
     # known finding D32: the witness is replayed; other inputs of the same region are not judged
     res.evaluations += 1
     try:
